@@ -164,11 +164,16 @@ class MacroProcessor:
         Macro call syntax: ${name} or ${name arg1 arg2 ...}
         """
         max_iterations = 100  # Prevent infinite loops
+        # A macro that (directly or indirectly) calls itself more than once grows the
+        # text exponentially, which the pass limit alone does not stop
+        max_size = max(100 * len(content), 1_000_000)
         iteration = 0
 
         while "${" in content and iteration < max_iterations:
             iteration += 1
             content = self._expand_once(content)
+            if len(content) > max_size:
+                raise ValueError("Macro expansion does not terminate (a macro calls itself?)")
 
         return content
 
